@@ -229,6 +229,17 @@ def build(case, full, budget=None, G=None, extra=None):
         return f, [G, case['p']], kw
     if sim == 'discrete_SIR':
         kw['args'] = (case['p'],)
+        if case.get('rec_steps'):
+            # user recovery rule: node u stays infectious for rec_steps[u] whole steps (asked once per step while infected)
+            need = dict(zip([oracles.tolabel(u) for u in case['gc']['nodes']], case['rec_steps']))
+            asked = {}
+
+            def test_recovery(u):
+                if budget:
+                    budget.tick()
+                asked[u] = asked.get(u, 0) + 1
+                return asked[u] >= need[u]
+            kw['test_recovery'] = test_recovery
         return f, [G], kw
     if sim == 'Gillespie_simple_contagion':
         H, J = build_spec_graphs(case, G)
@@ -308,6 +319,8 @@ def sim_case(draw, sims=SIMS, nmax=25, labels=('int', 'perm', 'str', 'tuple'), f
             case['ew'] = list(gc['ew'])[0]
         if draw(st.booleans()):
             case['nw'] = list(gc['nw'])[0]
+    if sim == 'discrete_SIR' and draw(st.integers(0, 2)) == 0:
+        case['rec_steps'] = [draw(st.integers(1, 3)) for _ in nodes]
     if sim in ('fast_nonMarkov_SIR', 'fast_nonMarkov_SIS'):
         nodes_l, adj = oracles.adjacency(gc)
         pairs = [(u, v) for u in nodes_l for v in adj[u]]
@@ -402,5 +415,7 @@ def large_case(draw, sim):
         sts = statuses_of(case)
         case['IC'] = [R.choice(sts) for _ in gc['nodes']]
         case.pop('ic_extra', None)
+    if 'rec_steps' in case:
+        case['rec_steps'] = [R.randint(1, 3) for _ in gc['nodes']]
     case['large'] = [shape, wkind]
     return case
